@@ -107,7 +107,8 @@ class Gen:
             self.feats.add('missing-image')
         st = rng.choice(['', 'width:20px', 'height:15px', 'width:30px;height:10px', 'width:2em',
                          'width:40px;height:40px;object-fit:contain', 'width:25px;image-rendering:pixelated',
-                         'max-width:50%', 'float:right;width:20px', 'opacity:.6;width:16px'])
+                         'max-width:50%', 'float:right;width:20px', 'opacity:.6;width:16px', 'image-orientation:none;width:20px',
+                         'image-orientation:90deg;width:20px', 'image-orientation:180deg flip', 'width:3px', 'width:120px'])
         return '<img src="%s" alt="%s" style="%s">' % (src, rng.choice(['', 'alt abc']), st + style)
 
     def svg(self):
@@ -134,11 +135,15 @@ class Gen:
             elif k == 6:
                 parts.append('<image href="%s" x="1" y="1" width="10" height="10"/>' % rng.choice(['pattern.png', 'blue.jpg']))
             else:
-                parts.append('<rect width="20" height="12" fill="teal" clip-path="url(#%sc)" opacity="%s"/>' % (u, rng.choice(['1', '.4'])))
+                parts.append('<rect width="20" height="12" fill="%s" clip-path="url(#%sc)" opacity="%s" mask="%s"/><use href="#%ss" x="30" y="2" width="8" height="8"/>' % (
+                    rng.choice(['teal', 'url(#%sp)' % u]), u, rng.choice(['1', '.4']), rng.choice(['none', 'url(#%sm)' % u]), u))
         defs = ('<defs><linearGradient id="%s"><stop offset="0" stop-color="red"/><stop offset="1" stop-color="blue" stop-opacity=".5"/>'
                 '</linearGradient><rect id="%sr" width="6" height="6" fill="purple"/><clipPath id="%sc"><circle cx="8" cy="6" r="6"/></clipPath>'
-                '<radialGradient id="%sg"><stop offset="0" stop-color="#fff"/><stop offset="1" stop-color="#060"/></radialGradient></defs>'
-                % (u, u, u, u))
+                '<radialGradient id="%sg"><stop offset="0" stop-color="#fff"/><stop offset="1" stop-color="#060"/></radialGradient>'
+                '<mask id="%sm"><rect width="10" height="12" fill="white"/></mask>'
+                '<pattern id="%sp" width="4" height="4" patternUnits="userSpaceOnUse"><rect width="2" height="2" fill="black"/></pattern>'
+                '<symbol id="%ss" viewBox="0 0 4 4"><circle cx="2" cy="2" r="2" fill="navy"/></symbol></defs>'
+                % (u, u, u, u, u, u, u))
         return '<svg xmlns="http://www.w3.org/2000/svg" width="%d" height="%d" viewBox="0 0 50 30">%s%s</svg>' % (
             rng.choice([50, 100, 30]), rng.choice([30, 60, 20]), defs, ''.join(parts))
 
@@ -370,9 +375,15 @@ def gen_doc(rng, feats=None, nblocks=None, bleed=None):
             user_css.append('@font-face { font-family: wpuser; src: url(weasyprint.otf) } h3 { font-family: wpuser, serif } '
                             '@counter-style ucs { system: fixed; symbols: A B C } ol { list-style: ucs }')
             g.feats.add('user-css-font-face')
+    if rng.random() < 0.2:
+        blocks.append('<p><a rel=attachment href="%s" title="att">attached %s</a></p>' % (rng.choice(['user.css', 'pattern.png']), g.text(1, 2)))
+        g.feats.add('attachment')
     meta = ''
+    if rng.random() < 0.15:
+        meta = '<link rel=attachment href="%s" title="doc att">' % rng.choice(['sheet2.css', 'blue.jpg'])
+        g.feats.add('attachment')
     if rng.random() < 0.5:
-        meta = ('<title>%s</title><meta name=author content="%s"><meta name=dcterms.created content="2020-01-0%d">'
+        meta += ('<title>%s</title><meta name=author content="%s"><meta name=dcterms.created content="2020-01-0%d">'
                 '<meta name=keywords content="a, b"><meta name=generator content=gen><meta name=x-custom content=v>'
                 % (g.text(1, 3), g.text(1, 2), rng.randint(1, 9)))
     html = '<html lang="%s"><head><meta charset=utf-8>%s<style>%s</style></head><body>%s</body></html>' % (
@@ -381,19 +392,11 @@ def gen_doc(rng, feats=None, nblocks=None, bleed=None):
 
 
 # ======================================================================================================================
-# listed under another property (F63, C13): the task says not to re-report it here; the cache stream still checks that
-# the implementation leaks exactly as the model says (bit 0 of cache_judge) and counts the hits.
-FOREIGN_KNOWN = {'c13:image-cache-ignores-orientation'}
-
-
 def report(run, what, data, signature):
-    """run.fail (open known findings of C19 are matched there by signature); F63 is only counted."""
-    if signature in FOREIGN_KNOWN:
-        run.known_hits.append(({'signature': signature}, what))
-        return False
+    """run.fail; open findings of C19 are matched there by signature.  A crash listed open under ANY property is counted
+    (crash-freedom is C02's property; for C19 a deterministic exception is a value the monitor compares like any output);
+    an unlisted crash is reported."""
     if signature.startswith('crash:'):
-        # crash-freedom is C02's property: a crash listed open under any property is counted here (a deterministic exception
-        # is a value for C19: the monitor compares it like any output); an unlisted one is reported
         listed = {k.get('signature') for k in common.load_known() if k.get('status') == 'open'}
         if signature in listed:
             run.known_hits.append(({'signature': signature}, what))
@@ -419,15 +422,16 @@ def has_marks(doc):
 
 ZOOMS = [0.1, 0.5, 1, 2, 3.7, 10]
 SINKS = ['bytes', 'bytes', 'fileobj', 'path', 'pathlib']
-IMG_OPTS = [{}, {}, {'optimize_images': True}, {'jpeg_quality': 60}, {'optimize_images': True, 'jpeg_quality': 30}]
+IMG_OPTS = [{}, {}, {'optimize_images': True}, {'jpeg_quality': 60}, {'optimize_images': True, 'jpeg_quality': 30}, {'dpi': 96}, {'dpi': 30},
+            {'dpi': 150, 'jpeg_quality': 50}]
 
 
 def gen_profiles(rng, doc):
-    """Two option profiles per document: the defaults and a random selection (image options are per document: a cache
-    shared between renders with different image options is the listed finding c19:image-cache-ignores-options)."""
+    """Two option profiles per document: the defaults and a random selection; the image options differ between profiles and
+    documents, and caches are shared across them."""
     img = dict(rng.choice(IMG_OPTS))
     p0 = {'pdf_identifier': 'c19', **img}
-    p1 = {'pdf_identifier': 'c19', **img}
+    p1 = {'pdf_identifier': 'c19', **dict(rng.choice(IMG_OPTS))}
     if rng.random() < 0.5:
         p1['pdf_forms'] = True
     if rng.random() < 0.4:
@@ -467,8 +471,8 @@ def gen_step(rng, d, prof, docs, mode):
     if step['api'] == 'render':
         if rng.random() < 0.3:
             step['copy_all'] = True
-        if rng.random() < 0.3:
-            step['rewrite'] = True
+        if rng.random() < 0.4:
+            step['rewrite'] = rng.choice(['same', 'other-options-between'])
     return step
 
 
@@ -486,17 +490,10 @@ def gen_history(rng, hid, docs):
     else:
         pool = [rng.randrange(nd) for _ in range(n)]
     steps = []
-    cache_img = None
     for i in range(n):
         d = pool[i % len(pool)] if mode == 'alternate' else rng.choice(pool)
-        st = gen_step(rng, d, rng.choice([0, 0, 1]), docs, mode)
-        if st['cache'] == 'shared':
-            img = json.dumps(docs[d]['imgopts'], sort_keys=True)
-            if cache_img is None:
-                cache_img = img
-            elif cache_img != img:
-                st['cache'] = 'fresh'
-        steps.append(st)
+        # a cache dict / cache folder is shared by renders with any image options, orientations and dpi (2960b4c, 6683f8f, 10a3ba4)
+        steps.append(gen_step(rng, d, rng.choice([0, 0, 1]), docs, mode))
     return {'id': hid, 'mode': mode, 'steps': steps}
 
 
@@ -657,7 +654,7 @@ def stream_monitor(run, rng, ndocs, nhist, njobs):
                 if obs.get('rewrite_same') is False:
                     report(run, 'the same Document written twice with the same options gives different bytes',
                            {'stream': 'monitor', 'clause': 'rewrite', 'job': case, 'where': where},
-                           'c19:marks-layer-accumulates-on-rewrite' if obs.get('rewrite_same_without_marks') else 'c19:document-rewrite-differs')
+                           'c19:document-rewrite-differs')
                 if obs.get('ret_none') is False:
                     run.fail('write_pdf(target) returned a value', {'stream': 'monitor', 'clause': 'sink-return', 'job': case, 'where': where},
                              signature='c19:sink-return')
@@ -703,56 +700,65 @@ def stream_monitor(run, rng, ndocs, nhist, njobs):
 
 PRE_CACHE = ('From Coq Require Import ZArith List Bool.\nRequire Import WV.model.C19Cache.\nImport ListNotations.\n'
              'Open Scope Z_scope.\n')
-NV, NU = 7, 6
+NK, NM, NU = 7, 3, 6
 
 
 def termlit(t):
-    return '(%d, %d, [%s])' % (t[0], t[1], '; '.join(str(x) for x in t[2]))
+    return '(%d, %d, %d, [%s])' % (t[0], t[1], t[2], '; '.join(str(x) for x in t[3]))
 
 
 def gen_cache_history(rng, kind):
-    """kind: 'pure' (one variant per URL, ratio 1: the domain of cache_is_transparent), 'variants', 'resample'."""
-    n = rng.randint(2, 14)
+    """kind: 'one-key' (one key part and mime type per URL), 'keys' (several orientations / image options of one URL),
+    'mimes' (several forced mime types of one key), 'resample' (dpi ratios 1/2, 1/4 at write time), 'all'."""
+    n = rng.randint(2, 16)
     urls = rng.sample(range(NU), rng.randint(1, 4))
-    var = {u: rng.randrange(NV) for u in urls}
-    resamples = {u: 0 for u in urls}
+    key = {u: rng.randrange(NK) for u in urls}
+    mime = {u: rng.randrange(NM) for u in urls}
     h = []
-    got = set()
+    got = []
     for _ in range(n):
         u = rng.choice(urls)
-        if rng.random() < 0.6 or (u not in got and rng.random() < 0.8):
-            v = var[u]
-            if kind == 'variants' and rng.random() < 0.5:
-                v = rng.randrange(NV)
-            h.append(['get', u, v])
-            got.add(u)
+        if rng.random() < 0.55 or not got:
+            k, m = key[u], mime[u]
+            if kind in ('keys', 'all') and rng.random() < 0.5:
+                k = rng.randrange(NK)
+            if kind in ('mimes', 'all') and rng.random() < 0.5:
+                m = rng.randrange(NM)
+            h.append(['get', u, k, m])
+            got.append((u, k))
         else:
-            r = 1
-            if kind == 'resample' and resamples[u] < 2 and rng.random() < 0.6:
-                r = rng.choice([2, 4])
-                resamples[u] += 1
-            h.append(['emit', u, r])
+            u, k = rng.choice(got) if rng.random() < 0.9 else (u, rng.randrange(NK))
+            r = rng.choice([2, 4]) if kind in ('resample', 'all') and rng.random() < 0.6 else 1
+            h.append(['emit', u, k, r])
     return h
 
 
 def history_class(h):
-    seen = {}
-    multi = False
+    keys, mimes = {}, {}
     for op in h:
         if op[0] == 'get':
-            if seen.setdefault(op[1], op[2]) != op[2]:
-                multi = True
-    res = any(op[0] == 'emit' and op[2] != 1 for op in h)
-    return ('variants' if multi else '') + ('resample' if res else '') or 'pure'
+            keys.setdefault(op[1], set()).add(op[2])
+            mimes.setdefault((op[1], op[2]), set()).add(op[3])
+    out = []
+    if any(len(v) > 1 for v in keys.values()):
+        out.append('keys')
+    if any(len(v) > 1 for v in mimes.values()):
+        out.append('mimes')
+    if any(op[0] == 'emit' and op[3] != 1 for op in h):
+        out.append('resample')
+    return '+'.join(out) or 'one-key'
 
 
 def stream_cache(run, rng, n):
-    cases = [{'history': [['get', 0, 0], ['get', 0, 2]]},                                         # the listed witness (orientation)
-             {'history': [['get', 5, 3], ['get', 5, 0]]},                                         # options: dpi
-             {'history': [['get', 0, 0], ['emit', 0, 4], ['get', 0, 0], ['emit', 0, 1]]},         # dpi down-sampling
-             {'history': [['get', 4, 0], ['get', 4, 1], ['get', 3, 0], ['get', 3, 0], ['emit', 3, 1]]}]   # failures are cached
+    # the former refutation witnesses first: they must be transparent now
+    cases = [{'history': [['get', 0, 0, 0], ['get', 0, 2, 0], ['emit', 0, 0, 1], ['emit', 0, 2, 1]]},        # two orientations
+             {'history': [['get', 5, 3, 0], ['get', 5, 0, 0], ['get', 5, 5, 0], ['emit', 5, 5, 1], ['emit', 5, 0, 1]]},   # image options
+             {'history': [['get', 0, 0, 0], ['emit', 0, 0, 4], ['get', 0, 0, 0], ['emit', 0, 0, 1], ['emit', 0, 0, 4]]},   # dpi down-sampling
+             {'history': [['get', 4, 0, 0], ['get', 4, 0, 1], ['get', 3, 0, 0], ['get', 3, 0, 0], ['emit', 3, 0, 1], ['get', 4, 1, 0]]},   # failures
+             {'history': [['get', 1, 0, 0], ['get', 1, 0, 1], ['get', 1, 0, 2], ['emit', 1, 0, 2]]}]     # forced mime types of one key
+    kinds = ['one-key', 'keys', 'mimes', 'resample', 'all', 'all']
     for i in range(n):
-        cases.append({'history': gen_cache_history(rng, ['pure', 'pure', 'variants', 'resample'][i % 4])})
+        cases.append({'history': gen_cache_history(rng, kinds[i % len(kinds)])})
     outs = yield ('direct', 'cache_history', cases, 24)
     table = None
     coq, kept = [], []
@@ -762,21 +768,37 @@ def stream_cache(run, rng, n):
                      signature='c19:cache-direct-raise')
             continue
         table = table or o
-        hl = '; '.join(('Get %d %d' % (op[1], op[2])) if op[0] == 'get' else ('Emit %d %d' % (op[1], op[2])) for op in c['history'])
+        hl = '; '.join(('Get %d %d %d' % tuple(op[1:])) if op[0] == 'get' else ('Emit %d %d %d' % tuple(op[1:])) for op in c['history'])
         ol = '; '.join(('IGet (%d) (%d)' % (x[1], x[2])) if x[0] == 'get' else ('IEmit (%d)' % x[1]) for x in o['obs'])
         coq.append('([%s], [%s], %d)' % (hl, ol, o['nfetch']))
         kept.append((c, o))
     if table is None:
         run.oblige('corr:cache-direct', False, 'no case ran')
         return
-    pre = PRE_CACHE + 'Definition FAILS : list Z := [%s].\nDefinition OK : list (Z * Z) := [%s].\n' % (
-        '; '.join(map(str, table['fails'])), '; '.join('(%d, %d)' % tuple(p) for p in table['ok']))
+    # premise of C19_cache_is_transparent_when_mime_is_ignored, measured: the loaded image does not depend on the mime type
+    by = {}
+    for (u, k, m, rs), v in table['tget'] + table['temit']:
+        by.setdefault((u, k, tuple(rs), len(rs) == 0 and (u, k, m, rs) in [t for t, _ in table['tget']]), set())
+    loads, embeds = {}, {}
+    for (u, k, m, rs), v in table['tget']:
+        loads.setdefault((u, k), set()).add(v)
+    for (u, k, m, rs), v in table['temit']:
+        embeds.setdefault((u, k, tuple(rs)), set()).add(v)
+    dep = [q for q, v in list(loads.items()) + list(embeds.items()) if len(v) > 1]
+    okm = {}
+    for u, k, m in table['ok']:
+        okm.setdefault((u, k), set()).add(m)
+    dep += [q for q, v in okm.items() if len(v) not in (0, NM)]
+    run.oblige('premise:decode-ignores-forced-mime(cold loads of every (URL, key part) under the 3 forced mime types agree)', not dep,
+               'keys whose load depends on the forced mime type: %s' % dep[:5])
+    pre = PRE_CACHE + 'Definition FAILS : list Z := [%s].\nDefinition OK : list (Z * Z * Z) := [%s].\n' % (
+        '; '.join(map(str, table['fails'])), '; '.join('(%d, %d, %d)' % tuple(p) for p in table['ok']))
     pre += 'Definition TGET : list (term * Z) := [%s].\n' % ';\n '.join('(%s, %d)' % (termlit(t), v) for t, v in table['tget'])
     pre += 'Definition TEMIT : list (term * Z) := [%s].\n' % ';\n '.join('(%s, %d)' % (termlit(t), v) for t, v in table['temit'])
-    pre += ('Definition judge (c : list (op Z Z Z) * list iobs * Z) : nat :=\n'
+    pre += ('Definition judge (c : list (op Z Z Z Z) * list iobs * Z) : nat :=\n'
             '  cache_judge (FAILS, OK, TGET, TEMIT, fst (fst c), snd (fst c), snd c).\n')
     try:
-        masks = common.eval_cases('c19cache', pre, 'list (op Z Z Z) * list iobs * Z', coq, 'judge')
+        masks = common.eval_cases('c19cache', pre, 'list (op Z Z Z Z) * list iobs * Z', coq, 'judge')
     except RuntimeError as exc:
         run.oblige('corr:cache-direct', False, str(exc))
         return
@@ -784,37 +806,25 @@ def stream_cache(run, rng, n):
     run.oblige('corr:cache-direct(model run on the measured cold values vs get_image_from_uri/get_x_object on one dict)',
                not mism, 'first disagreements: %s' % mism[:2])
     classes = {}
+    reported = 0
     for (c, o), m in zip(kept, masks):
         k = history_class(c['history'])
         classes.setdefault(k, [0, 0])
         classes[k][0] += 1
         if m & 2:
             classes[k][1] += 1
-            if k == 'pure':
-                report(run, 'a cached image differs from the cold load although every URL has one variant and nothing is re-sampled',
-                       {'stream': 'cache-direct', 'case': c, 'impl': o['obs']}, 'c19:cache-not-transparent')
-            elif m & 1:
-                pass        # not explained by the model: the broken correspondence obligation reports it
-            elif 'resample' in k:
-                report(run, 'image cache: value differs from the cold load after a dpi down-sampling on the shared object',
-                       {'stream': 'cache-direct', 'case': c}, 'c19:image-cache-dpi-overwrites-source')
-            else:
-                variants = {op[2] for op in c['history'] if op[0] == 'get'}
-                report(run, 'image cache: one URL, two variants, the second gets the first one\'s image',
-                       {'stream': 'cache-direct', 'case': c},
-                       'c13:image-cache-ignores-orientation' if variants <= {0, 1, 2} else 'c19:image-cache-ignores-options')
-    # the witnesses of the refutation theorems must behave on the implementation as in the model
-    wit_ok = all(m & 2 for m in masks[:3]) and not (masks[3] & 2)
-    run.oblige('witness:cache-refutations-replayed(two variants, dpi option, down-sampling; failures cached)', wit_ok,
-               'masks of the four fixed histories: %s' % masks[:4])
+            reported += 1
+            if reported <= 3:
+                run.fail('image cache: a value obtained through the shared dictionary differs from the cold load (history class %s)' % k,
+                         {'stream': 'cache-direct', 'case': c, 'impl': o['obs']}, signature='c19:cache-not-transparent')
     run.count('cache-direct', len(kept), [tuple(map(tuple, c['history'])) for c, _ in kept], samples=[kept[0][0], kept[-1][0]])
     run.stream_info('cache-direct', classes={k: {'cases': v[0], 'not_transparent': v[1]} for k, v in classes.items()},
                     table_terms=len(table['tget']) + len(table['temit']),
-                    rule='histories of 2..14 Get/Emit operations on one dict over 6 URLs (png, jpeg with exif, svg, undecodable, '
-                         'unfetchable, jpeg) x 7 variants (orientation from-image/none/90deg, dpi, optimize_images, jpeg_quality, forced '
-                         'svg mime type) x dpi ratios 1, 1/2, 1/4; the values of all 560 data terms are measured with cold isolated '
+                    rule='histories of 2..16 Get/Emit operations on one dict over 6 URLs (png, jpeg with exif, svg, undecodable, '
+                         'unfetchable, jpeg) x 7 key parts (orientation from-image/none/90deg/flip, dpi, optimize_images, jpeg_quality) x 3 '
+                         'forced mime types x dpi ratios 1, 1/2, 1/4; the values of all data terms are measured with cold isolated '
                          'calls; judged in Coq (cache_judge): bit0 model vs implementation (objects identity, values, number of fetcher '
-                         'calls), bit1 value differs from the cold load')
+                         'calls), bit1 value differs from the cold load: must be 0 for every history')
 
 
 # ======================================================================================================================
@@ -1028,12 +1038,12 @@ def same_ops(a, b, tol=2.5e-6):
 
 def resolve_rest(o):
     table = {}
-    for group in (o['fresh'], o['same_document'], o.get('fresh_without_marks', [])):
+    for group in (o['fresh'], o['same_document']):
         for g in group:
             for p in g['pages']:
                 if 'ops' in p['rest']:
                     table[p['rest']['id']] = p['rest']['ops']
-    for group in (o['fresh'], o['same_document'], o.get('fresh_without_marks', [])):
+    for group in (o['fresh'], o['same_document']):
         for g in group:
             for p in g['pages']:
                 p['rest_id'] = p['rest'].get('id', p['rest'].get('same_as'))
@@ -1098,15 +1108,12 @@ def judge_zoom_render(run, docs, outs):
                        {'stream': 'zoom-render', 'doc': d, 'zoom': z, 'clause': bad[0]}, 'c19:zoom:%s' % bad[0])
                 break
         # the same Document written at the six zooms: same content as the fresh renders
-        for z, g, f in zip(ZOOMS, o['same_document'], o.get('fresh_without_marks') or o['fresh']):
+        for z, g, f in zip(ZOOMS, o['same_document'], o['fresh']):
             if len(g['pages']) != len(f['pages']) or not all(pa['rest_id'] == pb['rest_id'] or same_ops(pa['rest'], pb['rest'])
                                                               for pa, pb in zip(g['pages'], f['pages'])):
                 report(run, 'one Document written at several zooms: page content differs from a fresh render at zoom %s' % z,
                        {'stream': 'zoom-render', 'doc': d, 'zoom': z}, 'c19:document-rewrite-differs')
                 break
-        if o.get('marks_accumulate'):
-            report(run, 'a Document with crop/cross marks written twice gives different bytes (not so without the marks)',
-                   {'stream': 'zoom-render', 'doc': d}, 'c19:marks-layer-accumulates-on-rewrite')
     return nboxes, nannots
 
 
@@ -1147,9 +1154,6 @@ def stream_copy(run, rng, n):
         if not o['original_unchanged']:
             report(run, 'writing copies changed the original Document (bytes or layout)', {'stream': 'copy-render', 'doc': d},
                    'c19:copy-changes-original')
-        if o.get('marks_effect'):
-            report(run, 'writing a copy changes what the original (with crop/cross marks) writes afterwards; not so without the marks',
-                   {'stream': 'copy-render', 'doc': d}, 'c19:marks-layer-accumulates-on-rewrite')
         for c in o['copies']:
             ncopies += 1
             if 'exc' in c:
@@ -1226,16 +1230,15 @@ def stream_relayout(run, rng, n):
         masks = common.eval_cases('c19relayout', PRE_RELAYOUT, 'rcase', coq, 'relayout_judge')
         mism = [(c, o) for (c, o), m in zip(kept, masks) if m & 1]
         run.oblige('corr:relayout(model layout / layout(after) vs one-pass / two-pass renders)', not mism, 'first disagreements: %s' % mism[:2])
-        run.oblige('witness:relayout-refutation-replayed(second layout pass differs on the implementation)', bool(masks) and bool(masks[0] & 2),
-                   'mask of the witness: %s' % masks[:1])
+        run.oblige('witness:shared-style-variant-replayed(the container that broke the shared-style code lays out the same once and twice)',
+                   bool(masks) and masks[0] == 0, 'mask of the witness: %s' % masks[:1])
         nd = 0
         for (c, o), m in zip(kept, masks):
             if m & 2:
                 nd += 1
-                multi_definite = c['cross'] is not None and len(c['lines']) > 1 and not (m & 1)
-                report(run, 'a flex container laid out twice (pushed to the next page) differs from the same container laid out once',
-                       {'stream': 'relayout', 'case': c, 'impl': o},
-                       'c19:flex-stretch-writeback-relayout' if multi_definite else 'c19:relayout-differs')
+                if nd <= 3:
+                    run.fail('a flex container laid out twice (pushed to the next page) differs from the same container laid out once',
+                             {'stream': 'relayout', 'case': c, 'impl': o}, signature='c19:flex-stretch-writeback-relayout')
         run.count('relayout', len(kept), [json.dumps(c, sort_keys=True) for c, _ in kept], samples=[kept[0][0]])
         run.stream_info('relayout', second_pass_differs=nd,
                         rule='wrapping row flex containers (1..3 lines of 1..3 items; height auto / 10..35 px, 0..3 text lines, padding, '
@@ -1246,12 +1249,14 @@ def stream_relayout(run, rng, n):
         run.oblige('corr:relayout', False, str(exc))
     (st1, gx), (st2, gy) = grid_outs
     if st1 == 'ok' and st2 == 'ok' and (gx['once'] != gx['twice'] or gy['once'] != gy['twice']):
-        report(run, 'a grid laid out twice sizes its auto tracks differently: %s vs %s' % (gx['once'], gx['twice']),
-               {'stream': 'relayout', 'grid': [gx, gy]}, 'c19:grid-stretch-writeback-relayout')
+        run.fail('a grid laid out twice sizes its auto tracks differently: %s vs %s' % (gx['once'], gx['twice']),
+                 {'stream': 'relayout', 'grid': [gx, gy]}, signature='c19:grid-stretch-writeback-relayout')
+    run.oblige('relayout:grid-witness-ran', st1 == 'ok' and st2 == 'ok', str(grid_outs)[:500])
 
 
 # ======================================================================================================================
-# stream 7: minimal witnesses of the findings handed over, replayed at every run
+# stream 7: minimal witnesses of the findings of this check, replayed at every run.  All but the BleedBox cap (F148, open)
+# were repaired in /repo: their witnesses are regression tests now (run.fail: a `fixed` entry suppresses nothing).
 
 PROBES = [
     ('inline-svg', 'c19:inline-svg-mutates-html-tree', lambda o: all(v['tree_mutated'] and v['second_render_differs'] for v in o.values())),
@@ -1262,6 +1267,7 @@ PROBES = [
     ('attachment-clock', 'c19:attachment-dates-from-clock', lambda o: o['depends_on_clock']),
     ('diskcache', 'c19:diskcache-del-removes-shared-folder', lambda o: o['raises'] or not o.get('same', True)),
     ('form-zoom', 'c19:form-font-size-ignores-zoom', lambda o: o['font_not_scaled']),
+    ('attachment-reuse', 'c19:attachment-object-single-use', lambda o: o['raises'] or not o['same']),
     ('bleedbox', 'c19:bleedbox-cap-not-scaled', lambda o: o['not_linear']),
 ]
 
@@ -1286,8 +1292,8 @@ def stream_probes(run):
         else:
             state[name] = 'no longer reproduces'
     run.count('probes', len(PROBES), [(p[0],) for p in PROBES])
-    run.stream_info('probes', state=state, rule='one minimal witness per finding of this check (see the final report), replayed at every run; '
-                    'a witness that stops reproducing is recorded here, not failed')
+    run.stream_info('probes', state=state, rule='one minimal witness per finding of this check, replayed at every run: a repaired one '
+                    'that reproduces again is a VIOLATION (regression), the open one (BleedBox cap) is matched by its signature')
 
 
 # ======================================================================================================================
@@ -1337,7 +1343,7 @@ def gen_reuse(rng, paths):
         sheets.append({'kind': kind, 'path': paths[name], 'name': name})
     atts = None
     if rng.random() < 0.45:
-        atts = [{'kind': rng.choice(['filename', 'filename', 'path', 'object']), 'path': paths[rng.choice(['a0.txt', 'a1.bin'])]}
+        atts = [{'kind': rng.choice(['filename', 'filename', 'path', 'object', 'url']), 'path': paths[rng.choice(['a0.txt', 'a1.bin'])]}
                 for _ in range(rng.randint(1, 2))]
     inline = rng.choice(['', '', '@font-face { font-family: ffi; src: url(weasyprint.otf) } h1 { font-family: ffi }',
                          '@counter-style cci { system: cyclic; symbols: "*" } ul { list-style: cci }'])
@@ -1361,12 +1367,6 @@ def reuse_value(obs):
     return ('exc', tuple(obs['exc']['site'] or ()), obs['exc']['type']) if 'exc' in obs else ('ok', obs['pdf'], obs['len'], tuple(obs.get('layout', ())))
 
 
-def single_use_attachment(case, obs, k):
-    """mechanism of the listed finding: an Attachment OBJECT in the reused list, second or later write, contextlib's error"""
-    return k >= 1 and 'exc' in obs and obs['exc']['type'] == 'AttributeError' and (obs['exc']['site'] or [None, None, None])[2] == 'write_pdf_attachment' \
-        and '_GeneratorContextManager' in obs['exc']['msg'] and any(a['kind'] == 'object' for a in (case['attachments'] or []))
-
-
 def judge_reuse(run, case, o, ref, report_limit):
     """Returns the list of (signature, what) for one case."""
     bad = []
@@ -1377,8 +1377,8 @@ def judge_reuse(run, case, o, ref, report_limit):
             if not cont[flag]:
                 bad.append(('c19:argument-container-modified', 'call %d changed the caller\'s %s: %s' % (k + 1, what, cont['changed_items'])))
         if not cont['attachment_objects_same']:
-            bad.append(('c19:attachment-object-single-use' if has_obj else 'c19:argument-container-modified',
-                        'call %d modified the caller\'s Attachment object (md5 set, source consumed)' % (k + 1)))
+            bad.append(('c19:argument-container-modified',
+                        'call %d modified the caller\'s Attachment object (an attribute other than the md5 memo)' % (k + 1)))
     for k, reg in enumerate(o['registry'][1:], start=1):
         if reg != o['registry'][0]:
             bad.append(('c19:registry-grows-on-repeat', 'call %d changed the shared FontConfiguration/CounterStyle again: %s -> %s' % (
@@ -1386,9 +1386,7 @@ def judge_reuse(run, case, o, ref, report_limit):
     v0 = reuse_value(o['calls'][0])
     for k, obs in enumerate(o['calls'][1:], start=1):
         if reuse_value(obs) != v0:
-            if single_use_attachment(case, obs, k):
-                bad.append(('c19:attachment-object-single-use', 'call %d with the same attachments list raises %s' % (k + 1, obs['exc']['msg'][:80])))
-            else:
+            if True:
                 bad.append(('c19:reused-arguments-render-differs', 'call %d differs from call 1 with the very same argument objects: %s vs %s' % (
                     k + 1, str(reuse_value(obs))[:120], str(v0)[:120])))
     if ref is not None and reuse_value(ref['calls'][0]) != v0:
@@ -1457,9 +1455,8 @@ def stream_reuse(run, rng, n):
             reported[sig] = reported.get(sig, 0) + 1
             if reported[sig] <= 2:
                 report(run, what, {'stream': 'reuse', 'case': c, 'observed': {'calls': o['calls'], 'containers': o['containers']}}, sig)
-        if not any(a['kind'] == 'object' for a in (c['attachments'] or [])):
-            coq.append(reuse_coq(c, o))
-            kept.append((c, o))
+        coq.append(reuse_coq(c, o))
+        kept.append((c, o))
     try:
         masks = common.eval_cases('c19args', PRE_ARGS, 'acase', coq, 'args_judge')
         mism = [(c, [x['sheet_kinds'] for x in o['containers']]) for (c, o), m in zip(kept, masks) if m & 1]
